@@ -3,7 +3,7 @@
    offset recovered from two spaces (_offset_from_spaces), per axis.
    Executable definitions only. *)
 From Coq Require Import ZArith List Bool.
-From Verif Require Import Base.Num.
+From Verif Require Import Base.Num Gen.ResizeDiscr.
 Import ListNotations.
 
 Section Op.
@@ -28,25 +28,15 @@ Definition gmax (a : axis) : T :=
 Definition cell_side (a : axis) : T :=
   if (a_n a =? 1)%Z then a_max a - a_min a else (gmax a - gmin a) / of_Z (a_n a - 1).
 
-(* _resize_discr: cells added on the left / right.  [fixed] selects the repaired
-   sign convention for a restriction with an explicit offset (finding
-   range-restrict-explicit-offset); the code as it stands is [fixed = false]. *)
-Definition num_lr (fixed : bool) (n n_new : Z) (off : option Z) : Z * Z :=
-  if (n_new =? n)%Z then (0, 0)%Z else
-  let nd := (n_new - n)%Z in
-  match off with
-  | None => let r := (nd / 2)%Z in ((nd - r)%Z, r)
-  | Some o => if fixed && (nd <? 0)%Z then ((- o)%Z, (nd + o)%Z) else (o, (nd - o)%Z)
-  end.
-
-Definition resize_axis (fixed : bool) (a : axis) (n_new : Z) (off : option Z) (bl br : bool) : axis :=
-  let '(nl, nr) := num_lr fixed (a_n a) n_new off in
+(* _resize_discr: [num_lr] (cells added on the left / right), [new_minpt], [new_maxpt] are
+   REGENERATED from the source into Gen/ResizeDiscr.v *)
+Definition resize_axis (a : axis) (n_new : Z) (off : option Z) (bl br : bool) : axis :=
+  let '(nl, nr) := num_lr (a_n a) n_new off in
   let cs := cell_side a in
-  let half := of_Z 1 / of_Z 2 in
-  let new_min := if bl then gmin a - of_Z nl * cs else gmin a - (of_Z nl + half) * cs in
-  let new_max := if br then gmax a + of_Z nr * cs else gmax a + (of_Z nr + half) * cs in
-  {| a_min := new_min; a_max := new_max; a_n := n_new; a_bl := bl; a_br := br |}.
+  {| a_min := new_minpt bl (gmin a) cs nl; a_max := new_maxpt br (gmax a) cs nr;
+     a_n := n_new; a_bl := bl; a_br := br |}.
 
-(* _offset_from_spaces, before rounding: |ran.grid.min - dom.grid.min| / dom.cell_sides *)
-Definition offset_float (dom ran : axis) : T := nabs (gmin ran - gmin dom) / cell_side dom.
+(* _offset_from_spaces, before rounding (Gen.ResizeDiscr.offset_float) *)
+Definition offset_float_ax (dom ran : axis) : T :=
+  offset_float (a_n dom <? a_n ran)%Z (gmin ran) (gmin dom) (cell_side dom).
 End Op.
